@@ -325,6 +325,13 @@ func parseGroup(mp *msgParser, tags []Tag) {
 		mp.rawBytes, _ = extractField(mp.parsedFieldBytes, mp.rawBytes)
 		mp.trailerBytes = mp.rawBytes
 
+		// A field that is not a member of the innermost group may belong to one of the enclosing
+		// groups: leave the nested groups until it is a member, or only the outermost group is left.
+		for len(tags) > 1 && !isGroupMember(mp.parsedFieldBytes.tag, fields) {
+			tags = tags[:len(tags)-1]
+			fields = getGroupFields(mp.msg, tags, mp.appDataDictionary)
+		}
+
 		// Is this field a member for the group.
 		if isGroupMember(mp.parsedFieldBytes.tag, fields) {
 			// Is this field a nested repeating group.
@@ -356,6 +363,7 @@ func parseGroup(mp *msgParser, tags []Tag) {
 				mp.msg.Body.add(dm)
 				// Cycle again with the new group.
 				dm = mp.msg.fields[mp.fieldIndex : mp.fieldIndex+1]
+				tags = searchTags
 				fields = getGroupFields(mp.msg, searchTags, mp.appDataDictionary)
 				continue
 			}
